@@ -101,6 +101,11 @@ class DenseTreeFlatten(ssm_impl_api.AbstractTreeFlatten):
 
     @classmethod
     def from_example(cls, x):
+        # Promote all leaves to their common dtype first. Otherwise,
+        # unravel() casts every leaf back to its own dtype, and (e.g.) states
+        # with integer-valued initial conditions are truncated to integers.
+        flat, _ = tree.ravel_pytree(x)
+        x = tree.tree_map(lambda s: np.asarray(s, dtype=flat.dtype), x)
         _, unravel = tree.ravel_pytree(x)
         return cls(unravel)
 
